@@ -69,6 +69,14 @@ type Case struct {
 	// cookies whose names differ from theirs in letter case only ("CK", "Nosuch");
 	// cookie names are case-sensitive, so these are other cookies.
 	CaseSibling bool `json:"cookie_names_in_other_case,omitempty"`
+	// Rewritten: the request arrives with another query ("k=stale&k=old&gone=1");
+	// a middleware reads it with the accessors and then puts the query under test
+	// in its place (URL.RawQuery assigned, as a normalising middleware does): the
+	// handler's reads are about the query that is there now.
+	Rewritten bool `json:"query_rewritten_by_middleware,omitempty"`
+	// Longer: SetCookie is first called for a cookie whose name starts with the
+	// name of the cookie under test ("ck_sig"), then for "ck": both come back.
+	Longer bool `json:"cookie_with_a_longer_name_first,omitempty"`
 }
 
 var junkPairs = []string{"junk=%zz", "%=1", "a=%", "x;y=1", "=", "", "%zz", "b=%4", "c=1;d=2", "e=%%", "=%"}
@@ -152,7 +160,7 @@ type seen struct {
 	pi                          int
 	pi64                        int64
 	cookie, rawCookie, missing  string
-	cookie2                     string
+	cookie2, longer             string
 	q2                          string
 	strs2                       []string
 }
@@ -163,13 +171,28 @@ func checkCase(c Case) (out evid.Outcome) {
 	var s seen
 	ran := false
 	var setCookieHeader string
+	var setCookieLines []string
 	f.Get("/set", func(ctx flamego.Context) {
+		if c.Longer {
+			ctx.SetCookie(http.Cookie{Name: "ck_sig", Value: "sig-of-ck", Path: "/"})
+		}
 		ctx.SetCookie(http.Cookie{Name: "ck", Value: ck, Path: "/"})
-		setCookieHeader = ctx.ResponseWriter().Header().Get("Set-Cookie")
+		setCookieLines = ctx.ResponseWriter().Header().Values("Set-Cookie")
+		for _, l := range setCookieLines {
+			if strings.HasPrefix(l, "ck=") {
+				setCookieHeader = l
+			}
+		}
 	})
+	var realQuery string
 	f.Use(func(ctx flamego.Context) {
 		if c.Form {
 			_ = ctx.Request().ParseForm()
+		}
+		if c.Rewritten && ctx.Request().URL.Path != "/set" {
+			_, _, _ = ctx.Query("k"), ctx.QueryInt("k"), ctx.QueryStrings("k")
+			_ = ctx.QueryBool("gone")
+			ctx.Request().URL.RawQuery = realQuery
 		}
 	})
 	f.Routes("/q/{v}", "GET,POST", func(ctx flamego.Context) {
@@ -185,6 +208,7 @@ func checkCase(c Case) (out evid.Outcome) {
 		s.param, s.pi, s.pi64 = ctx.Param("v"), ctx.ParamInt("v"), ctx.ParamInt64("v")
 		s.cookie, s.rawCookie, s.missing = ctx.Cookie("ck"), ctx.Cookie("raw"), ctx.Cookie("nosuch")
 		s.cookie2 = ctx.Cookie("ck") // reading is repeatable
+		s.longer = ctx.Cookie("ck_sig")
 		// so is reading the query, whatever the caller did with a returned list
 		// (the returned list is not written to: who owns it is not said)
 		s.q2, s.strs2 = ctx.Query("k"), ctx.QueryStrings("k")
@@ -244,6 +268,14 @@ func checkCase(c Case) (out evid.Outcome) {
 	}
 	h := http.Header{}
 	cookieHeader := pair
+	if c.Longer {
+		// a client sends back every cookie it was given
+		for _, l := range setCookieLines {
+			if nv := strings.SplitN(l, ";", 2)[0]; !strings.HasPrefix(nv, "ck=") {
+				cookieHeader = nv + "; " + cookieHeader
+			}
+		}
+	}
 	if c.CaseSibling {
 		cookieHeader = "CK=other-cookie; Nosuch=not-that-one; " + cookieHeader
 	}
@@ -259,6 +291,10 @@ func checkCase(c Case) (out evid.Outcome) {
 		req.Body = io.NopCloser(strings.NewReader("k=from-body&k=2&other=body&onlybody=1"))
 	}
 	req.URL.RawQuery = query
+	if c.Rewritten && !c.Form {
+		realQuery = query
+		req.URL.RawQuery = "k=stale&k=old&gone=1"
+	}
 	func() {
 		defer func() { escaped = recover() }()
 		f.ServeHTTP(rt.NewSpy(), req)
@@ -309,6 +345,9 @@ func checkCase(c Case) (out evid.Outcome) {
 	// ---- cookie round trip (independent of the query part)
 	if ran && s.cookie != ck {
 		return evid.Fail("cookie-roundtrip", "SetCookie(%q) produced %q; sent back, Cookie() returns %q", ck, setCookieHeader, s.cookie)
+	}
+	if ran && c.Longer && s.longer != "sig-of-ck" {
+		return evid.Fail("cookie-roundtrip", "SetCookie(ck_sig) then SetCookie(ck): the response carries %q; sent back, Cookie(\"ck_sig\") returns %q", setCookieLines, s.longer)
 	}
 	if ran && s.cookie2 != ck {
 		return evid.Fail("cookie-second-read", "SetCookie(%q): the first Cookie() returns %q, a second read in the same request returns %q", ck, s.cookie, s.cookie2)
@@ -599,6 +638,8 @@ func genCase(t *rapid.T) Case {
 	}
 	c.Leak = rapid.IntRange(0, 4).Draw(t, "leak") == 0
 	c.CaseSibling = rapid.IntRange(0, 3).Draw(t, "casesibling") == 0
+	c.Rewritten = !c.Form && rapid.IntRange(0, 4).Draw(t, "rewritten") == 0
+	c.Longer = rapid.IntRange(0, 3).Draw(t, "longer") == 0
 	if rapid.IntRange(0, 4).Draw(t, "rawck") == 0 {
 		c.RawCk = strconv.QuoteToASCII([]string{"%zz", "a b", "\"q\"", "x;y", "a=b", "%41", "\xff", "", "a+b%20c", "%4", "100%"}[rapid.IntRange(0, 10).Draw(t, "rck")])
 		if unq(c.RawCk) == "" {
